@@ -79,6 +79,12 @@ MUTANTS = [
  ("M21-init-frames-current-id", "C09", "program.go",
   "\t\tinterp.runWithID(n, interp.frame, id)", "\t\tinterp.run(n, interp.frame)",
   "frames of init functions and main take the run id current when they start (cancel during package initialisation is missed)"),
+ ("M23-stale-line-breakpoints-kept", "C19", "debugger.go",
+  "\t\t\t\t// reset stale breakpoints\n\t\t\t\tn.setBreakOnLine(false)\n", "\t\t\t\t// reset stale breakpoints\n",
+  "SetBreakpoints no longer clears line breakpoints of an earlier request"),
+ ("M24-stale-func-breakpoints-kept", "C19", "debugger.go",
+  "\t\t\t\t// reset stale breakpoints\n\t\t\t\tn.start.setBreakOnCall(false)\n", "\t\t\t\t// reset stale breakpoints\n",
+  "SetBreakpoints no longer clears function breakpoints of an earlier request"),
 ]
 
 def main():
